@@ -78,6 +78,9 @@ type Case struct {
 	// configured directory, missing when the cache was created, appeared holding an invalid Spec
 	// file: the rescan the call itself triggers reports an error
 	Late bool `json:"first_call_after_a_directory_with_a_bad_file_appeared,omitempty"`
+	// LateConflict: as Late, but the directory that appeared has the highest priority and holds two
+	// valid files that both define the resolvable device a: from then on a must not resolve
+	LateConflict bool `json:"first_call_after_a_directory_that_makes_a_conflict_appeared,omitempty"`
 	// LongN > 0: a request of LongN names: distinct unknown devices, every third one (LongMix) a resolvable one
 	// Pkg: the request goes through the package-level cdi.InjectDevices (default cache configured
 	// with the same directories) instead of the Cache method
@@ -104,9 +107,19 @@ func eval(c Case) hx.Result {
 			_ = os.WriteFile(filepath.Join(late, "bad.json"), []byte(`{"cdiVersion": "0.5.0", "kind": [`), 0o644)
 			cache = ac
 		}
+		if c.LateConflict {
+			late := filepath.Join(lateRoot, fmt.Sprint("conflict", lateSeq.Add(1)))
+			ac, _ := cdi.NewCache(cdi.WithSpecDirs(filepath.Join(specRoot, "d0"), filepath.Join(specRoot, "d1"), late), cdi.WithAutoRefresh(true))
+			defer func() { _ = ac.Configure(cdi.WithAutoRefresh(false)); _ = os.RemoveAll(late) }()
+			_ = os.MkdirAll(late, 0o755)
+			for _, n := range []string{"a1.json", "a2.json"} {
+				_ = os.WriteFile(filepath.Join(late, n), []byte(`{"cdiVersion":"0.5.0","kind":"`+K1+`","devices":[{"name":"a","containerEdits":{"env":["LATE=`+n+`"]}}]}`), 0o644)
+			}
+			cache = ac
+		}
 		var wantMiss []string
 		for _, i := range c.idx {
-			if !tokens[i].resolve {
+			if !tokens[i].resolve || (c.LateConflict && tokens[i].device == K1+"=a") {
 				wantMiss = append(wantMiss, tokens[i].device)
 			}
 		}
@@ -300,6 +313,11 @@ func main() {
 			lc.Late = true
 			cases = append(cases, lc)
 			nLate++
+		}
+		if len(c.idx) >= 1 && len(c.idx) <= 3 && c.LongN == 0 && (c.OCI == "empty" || c.OCI == "populated") {
+			cc := c
+			cc.LateConflict = true
+			cases = append(cases, cc)
 		}
 		// the package-level wrapper (default cache): every request of up to three names
 		if len(c.idx) <= 3 && c.LongN == 0 && (c.OCI == "empty" || c.OCI == "populated" || c.OCI == "nil") {
